@@ -10,6 +10,7 @@
 # information at https://github.com/ddsmt/ddSMT/blob/master/LICENSE.
 
 import io
+import os
 import typing
 
 from .nodes import Node
@@ -251,9 +252,23 @@ def write_smtlib(file: typing.TextIO, exprs: typing.List[Node]):
 
 
 def write_smtlib_to_file(filename: str, exprs: typing.List[Node]):
-    """Use ``write_smtlib`` to write to a filename."""
-    with open(filename, 'w') as file:
-        write_smtlib(file, exprs)
+    """Use ``write_smtlib`` to write to a filename.
+
+    The text is written to a temporary file next to ``filename``, which is
+    then moved into place. Thus ``filename`` holds a complete file at any
+    time, also if we are interrupted or killed while writing.
+    """
+    tmpname = f'{filename}.{os.getpid()}.tmp'
+    try:
+        with open(tmpname, 'w') as file:
+            write_smtlib(file, exprs)
+        os.replace(tmpname, filename)
+    except BaseException:
+        try:
+            os.unlink(tmpname)
+        except OSError:
+            pass
+        raise
 
 
 def write_smtlib_to_str(exprs: typing.List[Node]):
